@@ -523,7 +523,7 @@ FB_DAMAGES = ["none", "sx-zero", "sx-header", "sx-beyond", "sx-midobj", "sx-neg"
 FB_TEXT = "Hello fallback"
 
 
-def fb_doc(eol, eeol, damage):
+def fb_doc(eol, eeol, damage, sameline=False):
     """a single-revision file with a classic table, every line ended by `eol` (table entries by the two-byte `eeol`), with one damage that makes the startxref offset or the table unreadable"""
     from lib.pdfgen import ser, Ref as R
     objs = {1: {"Type": "Catalog", "Pages": R(2)}, 2: {"Type": "Pages", "Kids": [R(4)], "Count": 1}, 3: {"Type": "Font", "Subtype": "Type1", "BaseFont": "Helvetica"},
@@ -533,7 +533,7 @@ def fb_doc(eol, eeol, damage):
     offs = {}
     for n in range(1, 8):
         offs[n] = len(out)
-        out += b"%d 0 obj" % n + eol
+        out += b"%d 0 obj" % n + (b"" if sameline else eol)          # sameline: the body starts right after `obj` (dictionaries, arrays and strings begin with a delimiter)
         if n == 5:
             out += ser({"Length": len(content)}) + eol + b"stream\n" + content + b"\nendstream" + eol
         else:
@@ -581,8 +581,8 @@ def _fb_check(sel):
     from pdfminer.pdfdocument import PDFDocument
     from pdfminer.high_level import extract_text
     (eol, eeol), damage, caching = FB_EOLS[sel["eol"]], FB_DAMAGES[sel["damage"]], bool(sel["caching"])
-    data, objs, content = fb_doc(eol, eeol, damage)
-    desc = "single-revision classic-table file (line ends %r), damage %s, caching=%s" % (eol, damage, caching)
+    data, objs, content = fb_doc(eol, eeol, damage, bool(sel.get("sameline")))
+    desc = "single-revision classic-table file (line ends %r%s), damage %s, caching=%s" % (eol, ", object bodies on the `obj` line" if sel.get("sameline") else "", damage, caching)
     try:
         doc = PDFDocument(PDFParser(io.BytesIO(data)), caching=caching)
         for n in (1, 2, 3, 4, 6, 7):
@@ -609,7 +609,7 @@ def h7_fallback(timeout=200, part=None, **kw):
     import pdfminer.pdfdocument as pd
 
     def fn(ex):
-        sel = {"eol": ex.choice(len(FB_EOLS), "eol"), "damage": ex.choice(len(FB_DAMAGES), "damage"), "caching": ex.choice(2, "caching")}
+        sel = {"eol": ex.choice(len(FB_EOLS), "eol"), "damage": ex.choice(len(FB_DAMAGES), "damage"), "caching": ex.choice(2, "caching"), "sameline": ex.choice(2, "sameline")}
         r = _fb_check(sel)
         ex.require(r is None, r or "", fb=sel)
 
